@@ -1,0 +1,184 @@
+//go:build verif
+// +build verif
+
+package bfe_http2
+
+// Verification hook for property C34 (outbound DATA respects peer windows and frame order).
+// Exposes the real writeScheduler / flow / processSettingInitialWindowSize to the out-of-tree
+// harness (/verif/harness/cmd/c34).  Add-only, compiled only with build tag "verif".
+
+import "sort"
+
+// VerifC34 is a bare serverConn (no goroutines, no network) whose outbound scheduling state the
+// harness drives op by op.  Only code of writesched.go / flow.go / server.go is executed.
+type VerifC34 struct {
+	sc   *serverConn
+	msgs map[*byte]int // first byte of a payload buffer -> message number
+	lens map[int]int   // message number -> original length
+}
+
+// VerifC34Frame describes what writeScheduler.take returned.
+type VerifC34Frame struct {
+	Kind string // "C" control (stream-less), "H" non-DATA stream frame, "D" DATA, "Z" zero-length DATA
+	ID   uint32
+	Msg  int // DATA: message number given to AddData
+	Off  int // DATA: offset of the chunk in the message
+	Len  int // DATA: chunk length
+	End  bool
+	Done bool // frameWriteMsg.done != nil (the producer waits for this frame)
+}
+
+func NewVerifC34() *VerifC34 {
+	sc := &serverConn{
+		streams:           make(map[uint32]*stream),
+		writeSched:        writeScheduler{maxFrameSize: initialMaxFrameSize},
+		initialWindowSize: initialWindowSize,
+	}
+	sc.flow.add(initialWindowSize)
+	return &VerifC34{sc: sc, msgs: map[*byte]int{}, lens: map[int]int{}}
+}
+
+// Open creates a stream the way processHeaders links its outbound flow.
+func (v *VerifC34) Open(id uint32) bool {
+	if _, ok := v.sc.streams[id]; ok {
+		return false
+	}
+	st := &stream{sc: v.sc, id: id, state: stateOpen}
+	st.flow.conn = &v.sc.flow
+	st.flow.add(v.sc.initialWindowSize)
+	v.sc.streams[id] = st
+	return true
+}
+
+// AddData queues a DATA write of n bytes (message number msg) on stream id.
+func (v *VerifC34) AddData(id uint32, msg, n int, end bool) bool {
+	st, ok := v.sc.streams[id]
+	if !ok {
+		return false
+	}
+	p := make([]byte, n, n)
+	for i := range p {
+		p[i] = byte(msg)
+	}
+	if n > 0 {
+		v.msgs[&p[0]] = msg
+	}
+	v.lens[msg] = n
+	v.sc.writeSched.add(frameWriteMsg{write: &writeData{streamID: id, p: p, endStream: end}, stream: st,
+		done: make(chan error, 1)})
+	return true
+}
+
+// AddHeaders queues a response HEADERS write (a stream frame without flow-control cost).
+func (v *VerifC34) AddHeaders(id uint32, end bool) bool {
+	st, ok := v.sc.streams[id]
+	if !ok {
+		return false
+	}
+	v.sc.writeSched.add(frameWriteMsg{write: &writeResHeaders{streamID: id, endStream: end}, stream: st})
+	return true
+}
+
+// AddControl queues a stream-less frame.
+func (v *VerifC34) AddControl() {
+	v.sc.writeSched.add(frameWriteMsg{write: writeSettingsAck{}})
+}
+
+// Take calls the real writeScheduler.take.
+func (v *VerifC34) Take() (VerifC34Frame, bool) {
+	wm, ok := v.sc.writeSched.take()
+	if !ok {
+		return VerifC34Frame{}, false
+	}
+	if wm.stream == nil {
+		return VerifC34Frame{Kind: "C"}, true
+	}
+	switch w := wm.write.(type) {
+	case *writeData:
+		f := VerifC34Frame{Kind: "D", ID: wm.stream.id, Len: len(w.p), End: w.endStream, Done: wm.done != nil, Msg: -1}
+		if w.streamID != wm.stream.id {
+			f.Kind = "BAD-ID"
+		}
+		if len(w.p) == 0 {
+			f.Kind = "Z"
+			return f, true
+		}
+		// identify the message by content and the offset by the remaining capacity of the slice
+		for _, b := range w.p {
+			if b != w.p[0] {
+				f.Kind = "BAD-CONTENT"
+			}
+		}
+		f.Msg = int(w.p[0])
+		if total, ok := v.lens[f.Msg]; ok {
+			f.Off = total - cap(w.p)
+		} else {
+			f.Kind = "BAD-MSG"
+		}
+		return f, true
+	case *writeResHeaders:
+		return VerifC34Frame{Kind: "H", ID: wm.stream.id, End: w.endStream}, true
+	}
+	return VerifC34Frame{Kind: "?"}, true
+}
+
+// WindowUpdate mirrors processWindowUpdate's flow arithmetic (without scheduling a write):
+// result "ok", "nostream", "rst" (stream overflow: the stream is reset and forgotten as
+// resetStream/closeStream do) or "goaway" (connection overflow).
+func (v *VerifC34) WindowUpdate(id uint32, inc uint32) string {
+	if id != 0 {
+		st := v.sc.streams[id]
+		if st == nil {
+			return "nostream"
+		}
+		if !st.flow.add(int32(inc)) {
+			v.Forget(id)
+			return "rst"
+		}
+		return "ok"
+	}
+	if !v.sc.flow.add(int32(inc)) {
+		return "goaway"
+	}
+	return "ok"
+}
+
+// InitialWindow runs the real processSettingInitialWindowSize.
+func (v *VerifC34) InitialWindow(val uint32) bool {
+	return v.sc.processSettingInitialWindowSize(val) == nil
+}
+
+// MaxFrameSize is what processSetting does for SETTINGS_MAX_FRAME_SIZE.
+func (v *VerifC34) MaxFrameSize(val uint32) { v.sc.writeSched.maxFrameSize = val }
+
+// Forget is the scheduler-relevant part of closeStream.
+func (v *VerifC34) Forget(id uint32) bool {
+	st, ok := v.sc.streams[id]
+	if !ok {
+		return false
+	}
+	st.state = stateClosed
+	delete(v.sc.streams, id)
+	v.sc.writeSched.forgetStream(id)
+	return true
+}
+
+// Windows returns the connection send window and the (id, window) pairs of live streams, sorted.
+func (v *VerifC34) Windows() (int32, [][2]int64) {
+	var out [][2]int64
+	for id, st := range v.sc.streams {
+		out = append(out, [2]int64{int64(id), int64(st.flow.n)})
+	}
+	sort.Slice(out, func(i, j int) bool { return out[i][0] < out[j][0] })
+	return v.sc.flow.n, out
+}
+
+// Queued returns the ids that have a queue in the scheduler, sorted, and the control queue length.
+func (v *VerifC34) Queued() (int, []uint32) {
+	var ids []uint32
+	for id := range v.sc.writeSched.sq {
+		ids = append(ids, id)
+	}
+	sort.Slice(ids, func(i, j int) bool { return ids[i] < ids[j] })
+	return len(v.sc.writeSched.zero.s), ids
+}
